@@ -2,7 +2,7 @@
    Model: Model/Mempool.v ([legacy = false] = the code as it is, after the repairs R11a, R11b, R11c, R12; [legacy = true] =
    the code before them; both variants were compared with the corresponding Go build on the same scenarios). *)
 From Virel Require Import Lib.Config Lib.U64 Lib.AMap Model.Emission Model.Ledger Model.Node Model.Mempool
-  Proofs.Conservation Proofs.StakedSum Proofs.Mempool Proofs.Mempool2 Proofs.Mempool3 Proofs.Mempool4 Proofs.Mempool5 Gen.Params.
+  Proofs.Emission Proofs.Conservation Proofs.StakedSum Proofs.Mempool Proofs.Mempool2 Proofs.Mempool3 Proofs.Mempool4 Proofs.Mempool5 Proofs.Mempool6 Gen.Params.
 Open Scope N_scope.
 
 (* ---- the full statement ---- *)
@@ -113,6 +113,16 @@ Theorem C09_mempool_invariant : forall cfg,
 Proof. intros cfg. exact (conj (prevalidate_adm cfg) (packet_tx_mp_inv cfg)). Qed.
 Print Assumptions C09_mempool_invariant.
 
+(* the ledger hypothesis [linv] holds of the empty ledger and is kept by ApplyTxToState and by ApplyBlockToState (staker
+   rewards included) as long as no transaction registers delegate 0; the undo direction is not treated *)
+Theorem C09_linv_kept : forall cfg ga, cfg_ok_emission cfg = true ->
+  linv ledger0 /\
+  (forall l t h bh th l', linv l -> tx_good cfg t -> apply_tx cfg l t h bh th = Ok l' -> linv l') /\
+  (forall l b th l', total_bal l + reward cfg (lb_height b) <= max_supply cfg -> Forall (tx_good cfg) (lb_txs b) ->
+     linv l -> apply_block cfg ga l b th = Ok l' -> linv l').
+Proof. intros cfg ga Hok. exact (conj linv0 (conj (apply_tx_linv cfg) (apply_block_linv cfg ga Hok))). Qed.
+Print Assumptions C09_linv_kept.
+
 (* non-vacuity: all hypotheses of C09_simulation_sound hold together on a scenario with earlier entries of all five kinds
    by two signers (register, set delegate, stake by key 2; unstake, transfer to three recipients, restake by key 1; then
    a second stake of key 2 naming the unlock height its own pending stake will write) *)
@@ -127,10 +137,10 @@ Theorem C09_simulation_sound_nonvacuous :
 Proof. exact all_kinds_nonvacuous. Qed.
 Print Assumptions C09_simulation_sound_nonvacuous.
 
-(* STILL NOT PROVED (correspondence run only): that [linv] (its part "no owner with two funds in one pool") and
-   [mp_inv] hold in every reachable state of the wrapped node ([mp_inv] is proved for TX packets only, not for the
-   re-adding of transactions by RemoveBlockFromState); the side-block, stake-signature and coinbase clauses for a
-   completed template; C09_full itself is refuted (above).
+(* STILL NOT PROVED (correspondence run only): that [linv] and [mp_inv] hold in every reachable state of the wrapped node
+   ([linv] is proved to be kept by block application, not by block removal; [mp_inv] is proved for TX packets only, not
+   for the re-adding of transactions by RemoveBlockFromState); the side-block, stake-signature and coinbase clauses for
+   a completed template; C09_full itself is refuted (above).
    OBSERVATION, outside the property (which asks for soundness only): the simulation is not complete.  While an unstake
    that empties a fund is pending, validateMempoolTx refuses a change of delegate (925) and a stake naming another
    prev_unlock than the emptied fund's (916) of the same signer, which the ledger would apply after the unstake: the
